@@ -36,15 +36,24 @@ where
                 (absv.abs() / x_curr) * 100_f64
             };
         }
-        let test = polynomial.eval_univariate(lower_bound)? * polynomial.eval_univariate(x_curr)?;
+        let value_at_lower = polynomial.eval_univariate(lower_bound)?;
+        let test = value_at_lower * polynomial.eval_univariate(x_curr)?;
+        let mut exact = false;
         if test < 0 as f64 {
             upper_bound = x_curr;
         } else if test > 0 as f64 {
             lower_bound = x_curr;
         } else {
+            // One of the two factors vanished: the root may be the lower end, not the midpoint
+            if value_at_lower == 0.0 {
+                x_curr = lower_bound;
+            }
             approx_err = 0.0;
+            exact = true;
         }
-        if approx_err.abs() < error_tol || iter >= itermax {
+        // The initial guess may coincide with the first midpoint, which makes the first
+        // relative change zero: it says nothing before the bracket has been halved once
+        if exact || (iter > 0 && approx_err.abs() < error_tol) || iter >= itermax {
             break;
         }
         iter += 1;
